@@ -9,6 +9,7 @@ import FrappyProofs.Lemmas.DatatypesCall
 import FrappyProofs.Lemmas.RatGrid
 import FrappyProofs.Lemmas.DatatypesReval
 import FrappyProofs.Lemmas.DatatypesOfType
+import FrappyProofs.Lemmas.DatatypesConvDenotes
 import FrappyModel.Datatypes.ErrText
 import FrappyModel.Generated.C01
 /-
@@ -372,16 +373,21 @@ theorem command_none_refused (dt : DType F) : commandResult (some dt) (.none : P
   cases dt <;> simp [commandResult, call, conv, doubleCall, intCall, scaledCall, boolCall, enumCall, stringCall, blobCall,
     PVal.toFloat?, PVal.seqItems?, Except.map]
 
+/-- … and it denotes the value offered: numbers numerically equal (no fraction truncated, no string taken as a number),
+the nearest grid value for a scaled leaf, element-wise, key-wise -/
+theorem call_denotes (dt : DType F) (hwf : dt.WF) (v r : PVal F) (h : call dt v = .ok r) : ConvDenotes dt v r :=
+  call_convDenotes dt v none r hwf h
+
 /-- the result clause for whatever the command function returned -/
 theorem command_result_ok (resT : Option (DType F)) (hwf : ∀ dt, resT = some dt → dt.WF) (v r : PVal F)
-    (h : commandResult resT v = .ok r) : ResultOK resT (.ok r) := by
+    (h : commandResult resT v = .ok r) : ResultOK resT v (.ok r) := by
   cases resT with
   | none =>
     simp only [commandResult] at h
     injection h with h
     subst h
     simp [ResultOK, PVal.isNone]
-  | some dt => exact call_ofType_sound dt (hwf dt rfl) v r h
+  | some dt => exact ⟨call_ofType_sound dt (hwf dt rfl) v r h, call_denotes dt (hwf dt rfl) v r h⟩
 
 /-- … and never any other kind of exception -/
 theorem command_result_total (resT : Option (DType F)) (v : PVal F) (c : String) :
@@ -395,19 +401,32 @@ theorem command_result_idem_of_snapIdem (hsnap : SnapIdem F) (dt : DType F) (hwf
     (h : commandResult (some dt) v = .ok r) : commandResult (some dt) r = .ok r :=
   call_idem_of_snapIdem hsnap dt hwf v r h
 
-/-- the whole of `Command.do`, for EVERY command function (the driver): what it hands back to the dispatcher is a value
-of the declared result type (or `None` when no result type is declared) … -/
+/-- the whole of `Command.do`, for EVERY command function (the driver): the function is called at most once, with the
+validated argument (or without one), and what is handed back to the dispatcher is what the function returned for that
+call, converted: a value of the declared result type denoting it (or `None` when no result type is declared) … -/
 theorem command_do_ok (argT resT : Option (DType F)) (hwf : ∀ dt, resT = some dt → dt.WF)
     (func : Option (PVal F) → PVal F) (data : Option (JVal F)) (r : PVal F)
-    (h : commandDo argT resT func data = .ok r) : ResultOK resT (.ok r) := by
-  unfold commandDo at h
-  split at h
-  · cases h
-  · split at h
-    · cases h
-    · exact command_result_ok resT hwf _ r h
-  · cases h
-  · exact command_result_ok resT hwf _ r h
+    (h : commandDo argT resT func data = .ok r) :
+    ∃ a, ResultOK resT (func a) (.ok r) ∧
+      match argT with
+      | some adt => ∃ j v, dataArg data = some j ∧ acceptWire adt j none = .ok v ∧ a = some v
+      | none => dataArg data = none ∧ a = none := by
+  cases argT with
+  | none =>
+    cases hd : dataArg data with
+    | none =>
+      simp only [commandDo, hd] at h
+      exact ⟨none, command_result_ok resT hwf _ r h, rfl, rfl⟩
+    | some j => simp [commandDo, hd] at h
+  | some adt =>
+    cases hd : dataArg data with
+    | none => simp [commandDo, hd] at h
+    | some j =>
+      simp only [commandDo, hd] at h
+      split at h
+      · cases h
+      · rename_i v hv
+        exact ⟨some v, command_result_ok resT hwf _ r h, j, v, rfl, hv, rfl⟩
 
 /-- … or a bad-value error, never anything else -/
 theorem command_do_total (argT resT : Option (DType F)) (func : Option (PVal F) → PVal F) (data : Option (JVal F))
@@ -430,9 +449,12 @@ theorem ofTypeB_sound (dt : DType F) (v : PVal F) (h : ofTypeB dt v = true) : Of
   have h' : OfTypeM dt v := of_decide_eq_true h
   exact ofTypeG_mono (fun _ _ => onGrid_of_near) dt v h'
 
+theorem convDenotesB_iff (dt : DType F) (o r : PVal F) : convDenotesB dt o r = true ↔ ConvDenotes dt o r :=
+  decide_eq_true_iff
+
 /-- the monitor of the result clause is sound: an empty verdict means the clause holds for that outcome -/
-theorem judgeResult_sound (resT : Option (DType F)) (out : Outcome F) (again : Option (Outcome F))
-    (h : judgeResult resT out again = []) : ResultOK resT out := by
+theorem judgeResult_sound (resT : Option (DType F)) (ret : PVal F) (out : Outcome F) (again : Option (Outcome F))
+    (h : judgeResult resT ret out again = []) : ResultOK resT ret out := by
   cases out with
   | bad => trivial
   | other c => simp [judgeResult] at h
@@ -447,9 +469,15 @@ theorem judgeResult_sound (resT : Option (DType F)) (out : Outcome F) (again : O
       · simp [hb] at h1
     | some dt =>
       simp only [ResultOK]
-      by_cases hb : ofTypeB dt r = true
-      · exact ofTypeB_sound dt r hb
-      · simp [hb] at h1
+      simp only [List.append_eq_nil_iff] at h1
+      obtain ⟨h1, h2⟩ := h1
+      refine ⟨?_, ?_⟩
+      · by_cases hb : ofTypeB dt r = true
+        · exact ofTypeB_sound dt r hb
+        · simp [hb] at h1
+      · by_cases hb : convDenotesB dt ret r = true
+        · exact (convDenotesB_iff dt ret r).1 hb
+        · simp [hb] at h2
 
 /-! ## the refusal path: the helper that builds the text of every bad-value error of the scalar types
 
@@ -657,7 +685,7 @@ example : (match acceptWire (F := Rat) (.string 3 4 true) (.str "äöüß") none
 
 /-- a command with result type `exTree` whose function reports `b = 50` (outside the limits): `Command.do` hands it back
 (the conversion-only path does not apply numeric limits) - a value of the type (`command_do_ok`), not of the value set -/
-example : ∃ r, commandDo none (some exTree) (fun _ => exHeld) none = .ok r ∧ ResultOK (some exTree) (.ok r) ∧
+example : ∃ r, commandDo none (some exTree) (fun _ => exHeld) none = .ok r ∧ ResultOK (some exTree) exHeld (.ok r) ∧
     inSetB exTree r = false := by
   have hb : (match commandDo none (some exTree) (fun _ => exHeld) none with
       | .ok r => !inSetB exTree r
@@ -666,8 +694,8 @@ example : ∃ r, commandDo none (some exTree) (fun _ => exHeld) none = .ok r ∧
   | error e => rw [h] at hb; cases hb
   | ok r =>
     rw [h] at hb
-    exact ⟨r, rfl, command_do_ok none (some exTree) (fun dt hdt => by injection hdt with hdt; rw [← hdt]; exact exTree_wf) _ _ r h,
-      by simpa using hb⟩
+    obtain ⟨a, ha, _⟩ := command_do_ok none (some exTree) (fun dt hdt => by injection hdt with hdt; rw [← hdt]; exact exTree_wf) _ _ r h
+    exact ⟨r, rfl, ha, by simpa using hb⟩
 
 /-- a communicate-like command (string argument, string result) whose function has no answer: a bad-value error, for
 the argument-less form too; with an answer the answer is handed back; without a declared result type `None` is -/
@@ -687,11 +715,13 @@ example : ¬ OfType exTree (.none : PVal Rat) := none_of_no_type exTree
 example : OfType exTree exPrev := inSet_ofType exTree exTree_wf exPrev exPrev_inSet
 
 /-- the result monitor accepts the converted value and flags `None`, a value of another kind and a leaked exception -/
-example : ((judgeResult (some exTree) (.ok exHeld) (some (.ok exHeld))).isEmpty &&
-    (judgeResult (some exTree) (.ok .none) none).contains "oftype:result" &&
-    (judgeResult (F := Rat) (some (.string 0 10 true)) (.ok (.int 5)) (some .bad)).contains "oftype:result" &&
-    (judgeResult (F := Rat) (some (.string 0 10 true)) (.other "TypeError") none).contains "total:result" &&
-    (judgeResult (F := Rat) none (.ok .none) none).isEmpty) = true := by
+example : ((judgeResult (some exTree) exHeld (.ok exHeld) (some (.ok exHeld))).isEmpty &&
+    (judgeResult (some exTree) .none (.ok .none) none).contains "oftype:result" &&
+    (judgeResult (F := Rat) (some (.string 0 10 true)) (.int 5) (.ok (.int 5)) (some .bad)).contains "oftype:result" &&
+    (judgeResult (F := Rat) (some (.string 0 10 true)) .none (.ok (.str "None")) (some (.ok (.str "None")))).contains "denotes:result" &&
+    (judgeResult (F := Rat) (some (.int 0 5)) (.float (7/2)) (.ok (.int 3)) (some (.ok (.int 3)))).contains "denotes:result" &&
+    (judgeResult (F := Rat) (some (.string 0 10 true)) .none (.other "TypeError") none).contains "total:result" &&
+    (judgeResult (F := Rat) none (.int 7) (.ok .none) none).isEmpty) = true := by
   decide +kernel
 
 /-- the helper on a `repr` that fails for big values (as `repr(int)` beyond 4300 digits): a text in every case, a cut
